@@ -359,3 +359,251 @@ def guard_dominates(g: pf.CFG, tests: List[Tuple[pf.Node, str]], assign: pf.Node
         return False
     # 2. no path entry -> target that avoids the guard query itself
     return g.path_avoiding(g.entry, lambda n: n is target, lambda n: n is assign) is None
+
+
+# --------------------------------------------------------------------------------------------------------------
+# alias-insensitive structure of a SELECT: which table a column belongs to, equality closure of its conditions
+# --------------------------------------------------------------------------------------------------------------
+Term = Tuple[str, ...]
+
+
+def alias_map(sel: N) -> Dict[str, str]:
+    """alias (or table name) -> table name, lower-cased, for the plain tables of the FROM clause."""
+    return {(t.alias or t.name).lower().strip('`'): t.name.lower().strip('`') for t in sf.from_tables(sel.frm) if t.kind == 'table'} if sel is not None and sel.frm is not None else {}
+
+
+def term_of(n: N, alias: Dict[str, str], schema: Optional[Dict[str, List[str]]] = None, variables: Sequence[str] = ()) -> Optional[Term]:
+    """Canonical name of an operand: ('col', table | '?', column) with the alias resolved through the FROM clause (an unqualified column is
+    attributed to the only FROM table that has it when the schema tells), ('var', name) for routine variables / parameters,
+    ('lit', repr) and ('param', position) for constants and `%s`."""
+    if n.kind == 'col':
+        parts = [p.lower().strip('`') for p in n.parts]
+        if len(parts) == 1:
+            if parts[0] in variables:
+                return ('var', parts[0])
+            owners = []
+            if schema:
+                lower = {k.lower(): [c.lower() for c in v] for k, v in schema.items()}
+                owners = sorted({t for t in alias.values() if parts[0] in lower.get(t, [])})
+            return ('col', owners[0] if len(owners) == 1 else '?', parts[0])
+        q = parts[-2]
+        if q in ('new', 'old') and q not in alias:
+            return ('row', q, parts[-1])
+        return ('col', alias.get(q, q), parts[-1])
+    if n.kind == 'lit':
+        return ('lit', repr(n.value))
+    if n.kind == 'param':
+        return ('param', str(getattr(n, 'pos', id(n))))
+    if n.kind == 'uvar':
+        return ('uvar', n.name.lower())
+    return None
+
+
+def _match(a: Term, b: Term) -> bool:
+    """Equality of terms, an unattributed column ('?') matching the like-named column of any table."""
+    if a == b:
+        return True
+    if a[0] == b[0] == 'col' and a[2] == b[2] and '?' in (a[1], b[1]):
+        return True
+    return False
+
+
+class EqClosure:
+    """Equivalence classes of the operands related by `=` conjuncts of a selection (WHERE and the ON conditions of its inner joins)."""
+
+    def __init__(self) -> None:
+        self.classes: List[List[Term]] = []
+        self.other: List[N] = []   # conjuncts that are not equalities between two recognised operands
+
+    def add(self, a: Term, b: Term) -> None:
+        hit = [c for c in self.classes if any(_match(a, x) or _match(b, x) for x in c)]
+        new = [a, b]
+        for c in hit:
+            new += c
+            self.classes.remove(c)
+        out: List[Term] = []
+        for t in new:
+            if t not in out:
+                out.append(t)
+        self.classes.append(out)
+
+    def related(self, a: Term, b: Term) -> bool:
+        return any(any(_match(a, x) for x in c) and any(_match(b, x) for x in c) for c in self.classes)
+
+    def partners(self, a: Term) -> List[Term]:
+        return [x for c in self.classes if any(_match(a, y) for y in c) for x in c if not _match(a, x)]
+
+
+def all_conjuncts(sel: N, inner_only: bool = True) -> List[N]:
+    out = list(sf.conjuncts(sel.where))
+
+    def rec(ref: N) -> None:
+        if ref.kind == 'from':
+            rec(ref.first)
+            for j in ref.joins:
+                if j.on is not None and (j.jtype == 'INNER' or not inner_only):
+                    out.extend(sf.conjuncts(j.on))
+                rec(j.ref)
+    if sel.frm is not None:
+        rec(sel.frm)
+    return out
+
+
+def eq_closure(sel: N, schema: Optional[Dict[str, List[str]]] = None, variables: Sequence[str] = (), conj: Optional[List[N]] = None, alias: Optional[Dict[str, str]] = None) -> EqClosure:
+    al = alias if alias is not None else alias_map(sel)
+    ec = EqClosure()
+    for c in (conj if conj is not None else all_conjuncts(sel)):
+        if c.kind == 'bin' and c.op == '=':
+            a, b = term_of(c.left, al, schema, variables), term_of(c.right, al, schema, variables)
+            if a is not None and b is not None:
+                ec.add(a, b)
+                continue
+        if c.kind == 'lit' and c.value in (True, 1):
+            continue
+        ec.other.append(c)
+    return ec
+
+
+def flag_set(c: N) -> Optional[N]:
+    """The operand x of a conjunct that requires the boolean / 0-1 flag x to be set: `x`, `x = 1`, `1 = x`, `x = TRUE`, `x IS TRUE`, `x != 0`."""
+    if c.kind in ('col', 'uvar'):
+        return c
+    if c.kind == 'bin' and c.op in ('=', '<=>'):
+        for a, b in ((c.left, c.right), (c.right, c.left)):
+            if b.kind == 'lit' and (b.value is True or (b.value == 1 and not isinstance(b.value, (str, bool)))) and a.kind in ('col', 'uvar'):
+                return a
+    if c.kind == 'bin' and c.op == '!=':
+        for a, b in ((c.left, c.right), (c.right, c.left)):
+            if b.kind == 'lit' and (b.value is False or (b.value == 0 and not isinstance(b.value, (str, bool)))) and a.kind in ('col', 'uvar'):
+                return a
+    return None
+
+
+def flag_clear(c: N) -> Optional[N]:
+    """The operand x of a predicate that holds exactly when the (non-NULL) flag x is not set: `NOT x`, `x = 0`, `x = FALSE`, `x IS FALSE`, `x != 1`."""
+    if c.kind == 'un' and c.op == 'NOT':
+        return flag_set(c.arg)
+    if c.kind == 'bin' and c.op in ('=', '<=>'):
+        for a, b in ((c.left, c.right), (c.right, c.left)):
+            if b.kind == 'lit' and (b.value is False or (b.value == 0 and not isinstance(b.value, (str, bool)))) and a.kind in ('col', 'uvar', 'func'):
+                return a
+    if c.kind == 'bin' and c.op == '!=':
+        for a, b in ((c.left, c.right), (c.right, c.left)):
+            if b.kind == 'lit' and (b.value is True or (b.value == 1 and not isinstance(b.value, (str, bool)))) and a.kind in ('col', 'uvar', 'func'):
+                return a
+    return None
+
+
+def guard_literals(guard: Sequence[Tuple[N, bool]]) -> List[Tuple[N, bool]]:
+    """A path condition as a list of (atom, polarity) literals: AND under positive polarity, OR under negative polarity and NOT are
+    resolved; `x = 0 / x = FALSE / x != 1` count as the negative literal on x and `x = 1 / x = TRUE / x != 0` as the positive one
+    (routine variables holding the result of a boolean function are never NULL)."""
+    out: List[Tuple[N, bool]] = []
+
+    def rec(c: N, pol: bool) -> None:
+        if c.kind == 'un' and c.op == 'NOT':
+            rec(c.arg, not pol)
+            return
+        if c.kind == 'bin' and ((c.op == 'AND' and pol) or (c.op == 'OR' and not pol)):
+            rec(c.left, pol)
+            rec(c.right, pol)
+            return
+        x = flag_clear(c)
+        if x is not None and c.kind == 'bin':
+            out.append((x, not pol))
+            return
+        y = flag_set(c)
+        if y is not None and c.kind == 'bin':
+            out.append((y, pol))
+            return
+        out.append((c, pol))
+    for c, pol in guard:
+        rec(c, pol)
+    return out
+
+
+def assigned_from(body: Sequence[N]) -> Dict[str, List[Tuple[N, Optional[N]]]]:
+    """routine variable -> [(defining expression, the SELECT it is read by | None for SET)] for every SET v = e / SELECT e .. INTO v."""
+    out: Dict[str, List[Tuple[N, Optional[N]]]] = {}
+    for st in sf.all_statements(body):
+        if st.kind == 'set':
+            for t, v in st.assigns:
+                if sr.is_var(t):
+                    out.setdefault(t.parts[0].lower(), []).append((v, None))
+        elif st.kind == 'select' and st.into:
+            for t, (c, _al) in zip(st.into, st.cols):
+                if sr.is_var(t):
+                    out.setdefault(t.parts[0].lower(), []).append((c, st))
+        elif st.kind == 'declare' and st.default is not None:
+            for n in st.names:
+                out.setdefault(n.lower(), []).append((st.default, None))
+    return out
+
+
+# --------------------------------------------------------------------------------------------------------------
+# Python side: which edge of a test guarantees "row found" / "flag not set", however the test is spelled
+# --------------------------------------------------------------------------------------------------------------
+def _tv(e: ast.AST, atom: Callable[[ast.AST], Any]) -> Optional[bool]:
+    """Three-valued value of a Python condition; atom(e) returns True / False for the expressions it knows, None for unknown and
+    NotImplemented for "not an atom, look inside"."""
+    a = atom(e)
+    if a is not NotImplemented:
+        return a
+    if isinstance(e, ast.Constant):
+        return bool(e.value)
+    if isinstance(e, ast.UnaryOp) and isinstance(e.op, ast.Not):
+        v = _tv(e.operand, atom)
+        return None if v is None else (not v)
+    if isinstance(e, ast.BoolOp):
+        vs = [_tv(x, atom) for x in e.values]
+        if isinstance(e.op, ast.And):
+            return False if any(v is False for v in vs) else (True if all(v is True for v in vs) else None)
+        return True if any(v is True for v in vs) else (False if all(v is False for v in vs) else None)
+    if isinstance(e, ast.Call) and pf.dotted(e.func) == 'bool' and len(e.args) == 1:
+        return _tv(e.args[0], atom)
+    return None
+
+
+def outcome_tests(g: pf.CFG, fn: pf.FuncDef, rec: str, flag: Optional[str] = None) -> Tuple[List[Tuple[pf.Node, str]], List[Tuple[pf.Node, str]], bool]:
+    """(row-found tests, flag-clear tests, mentioned): for every test node of the CFG - with single-definition locals expanded, so that
+    `cancelled = rec['cancelled']; if cancelled:` is seen through - the edge label on which "the query returned a row" resp.
+    "rec[flag] is falsy" is GUARANTEED, decided by a three-valued evaluation of the test with the atom fixed (`rec`, `rec is None`,
+    `rec is not None`, `not ..`, `and` / `or`, `rec[flag]`, `rec.get(flag)`).  mentioned: rec (resp. rec[flag]) is read somewhere at all."""
+    def is_rec(x: ast.AST) -> bool:
+        return isinstance(x, ast.Name) and x.id == rec
+
+    def is_flag(x: ast.AST) -> bool:
+        if flag is None:
+            return False
+        if isinstance(x, ast.Subscript) and is_rec(x.value) and pf.const_str(x.slice) == flag:
+            return True
+        return isinstance(x, ast.Call) and isinstance(x.func, ast.Attribute) and x.func.attr == 'get' and is_rec(x.func.value) and len(x.args) >= 1 and pf.const_str(x.args[0]) == flag
+
+    def atoms(found: Optional[bool], fl: Optional[bool]):
+        def atom(x: ast.AST) -> Any:
+            if is_rec(x):
+                return found
+            if is_flag(x):
+                return fl
+            if isinstance(x, ast.Compare) and len(x.ops) == 1 and is_rec(x.left) and isinstance(x.comparators[0], ast.Constant) and x.comparators[0].value is None:
+                if isinstance(x.ops[0], (ast.Is, ast.Eq)):
+                    return None if found is None else (not found)
+                if isinstance(x.ops[0], (ast.IsNot, ast.NotEq)):
+                    return found
+            return NotImplemented
+        return atom
+    found_t: List[Tuple[pf.Node, str]] = []
+    clear_t: List[Tuple[pf.Node, str]] = []
+    for n in g.find(lambda n: n.kind == 'test'):
+        if n.ast is None:
+            continue
+        e = pf.expand_locals(fn, n.ast)
+        v0 = _tv(e, atoms(False, None))
+        if v0 is not None and any(is_rec(x) for x in ast.walk(e)):
+            found_t.append((n, 'T' if v0 is False else 'F'))
+        if flag is not None and any(is_flag(x) for x in ast.walk(e)):
+            v1 = _tv(e, atoms(True, True))
+            if v1 is not None:
+                clear_t.append((n, 'T' if v1 is False else 'F'))
+    mentioned = any((is_flag(x) if flag is not None else (is_rec(x) and isinstance(x.ctx, ast.Load))) for x in pf.walk_shallow(fn))
+    return found_t, clear_t, mentioned
